@@ -22,7 +22,25 @@ func filterClosures(p *Program) []*ssa.Function {
 		if m == nil {
 			continue
 		}
-		for _, af := range m.AnonFuncs {
+		// the closure is made in Listen itself or in a helper of the same package that Listen calls (which gets the
+		// callback and the configuration as arguments)
+		var cands []*ssa.Function
+		seenF := map[*ssa.Function]bool{}
+		var collect func(f *ssa.Function, depth int)
+		collect = func(f *ssa.Function, depth int) {
+			if f == nil || seenF[f] || depth > 2 {
+				return
+			}
+			seenF[f] = true
+			cands = append(cands, f.AnonFuncs...)
+			for _, call := range calls(f) {
+				if cal := call.Common().StaticCallee(); cal != nil && cal.Pkg != nil && m.Pkg != nil && cal.Pkg == m.Pkg && cal.Signature.Recv() == nil {
+					collect(cal, depth+1)
+				}
+			}
+		}
+		collect(m, 0)
+		for _, af := range cands {
 			sig := af.Signature
 			if sig.Params().Len() != 2 || sig.Params().At(0).Type().String() != "[]byte" || sig.Params().At(1).Type().String() != "int32" {
 				continue
